@@ -1063,8 +1063,11 @@ impl Model for Cw20Model {
                 let mut authorised = true;
                 match cur {
                     None => {
-                        authorised = false;
-                        v.push(Violation::new("C02.draw_without_allowance", format!("{a:?} accepted, no allowance granted")));
+                        // a draw of nothing against no allowance moves nothing and consumes nothing
+                        if amt.0 > 0 {
+                            authorised = false;
+                            v.push(Violation::new("C02.draw_without_allowance", format!("{a:?} accepted, no allowance granted")));
+                        }
                     }
                     Some((n, e)) => {
                         if e.expired(h, t) {
@@ -1088,8 +1091,10 @@ impl Model for Cw20Model {
                     v.push(Violation::new("C02.debit_without_funds", format!("{a:?} accepted with balance {}", bal(&r, *owner))));
                 }
                 if authorised {
-                    let (n, e) = cur.unwrap();
-                    r.allow.insert((*owner, *by), (n - amt.0, e));
+                    let (n, e) = cur.unwrap_or((0, ExpKey::Never));
+                    if cur.is_some() {
+                        r.allow.insert((*owner, *by), (n - amt.0, e));
+                    }
                     *r.bal.entry(*owner).or_insert(0) -= amt.0;
                     match a {
                         Act::TransferFrom { to, .. } | Act::SendFrom { to, .. } => {
